@@ -63,3 +63,20 @@ props["C04"]["manifest"] = {
     "note": "Trusted: Lean kernel and the three standard axioms; the harness/driver. Not modelled: the hints recorded during type checking and copattern elaboration (exercised through source programs). Known finding: matches over types with uninhabited components are over-rejected (known-findings.json).",
     "technique": "Lean 4 mirror of the pattern-matrix algorithm with kernel-checked termination and semantic theorems + differential correspondence on generated programs",
 }
+
+props["C08"] = {
+    "harness": "c08",
+    "level": "proof",
+    "nontrivial": r"^c08 (scc|ctx) \S+ .*G [2-9]",
+    "rule": "(a) every digraph on <= 3 (quick) / <= 4 (thorough) nodes with self-loops, each also with its edge-less nodes absent from the map (dependency targets only), plus random graphs up to 12 / 40 nodes; each graph is run through the real DepGraph/Kosaraju/SccGraph several times (std HashMap RandomState differs per map instance) and drained by top/release in three modes (whole round, one group, one id = piecemeal); the canonicalised sequence of top() answers is compared with the Lean mirror run under a different iteration scheduler each time, and an independent oracle checks that nothing is offered before its dependencies or twice and that everything is released. (b) generated begin/end blocks whose `that` definitions realise a random dependency graph (acyclic, or cyclic through value definitions), printed under all (<= 4 definitions) or sampled permutations: acceptance + behaviour must be identical across permutations and BindingContext::topological_order must equal the model's. Non-trivial = distinct requests on graphs with at least two entries.",
+    "explanation": "The dependency analysis (Kosaraju, SccGraph bookkeeping, BindingContext ordering) is mirrored in Lean with hash-map iteration order as an explicit scheduler parameter, and compared with the real structures on exhaustively enumerated small graphs under real hash randomisation; property theorems proved so far are listed under `theorems`; statements not yet proved are kept as `Statement.*` propositions in ZV/Props/C08.lean and are not counted as obligations.",
+    "trusted_base": [KERNEL, AXIOMS, HARNESS,
+                     "modelled, not verified: lang/utils/src/graph.rs (DepGraph, SrcGraph, Kosaraju, SccGraph::{new,top,release}) and scoped/arena.rs BindingContext::{from_bindings, ready, topological_order} are mirrored by ZV/Model/Graph.lean with hash iteration order as a parameter, and compared on every run; obliviate/keep_only are not used by the block pipeline and not modelled; the checker's treatment of RecGroup is exercised through programs only"],
+    "assumptions": ["std::collections::HashMap iteration order is arbitrary but a permutation of the contents (the scheduler parameter of the model)"],
+}
+
+props["C08"]["manifest"] = {
+    "text": "graph.rs (DepGraph/Kosaraju/SccGraph) and BindingContext ordering are mirrored in Lean with hash iteration order as a parameter; the mirror is compared with the real structures on all small digraphs (incl. self-loops and target-only nodes) in three release disciplines under real hash randomisation, and with BindingContext::topological_order on permuted generated blocks, whose acceptance and behaviour must also be permutation-invariant. Kernel-checked theorems about the mirror are listed in the evidence; the remaining statements (Kosaraju correctness, drain order, scheduler independence) are kept in full in ZV/Props/C08.lean until proved.",
+    "note": "Trusted: Lean kernel and the three standard axioms; the harness/driver; HashMap iteration being a permutation. Not modelled: SccGraph::{obliviate, keep_only} (unused by blocks), the checker's RecGroup handling.",
+    "technique": "Lean 4 mirror with scheduler-parametrised iteration + kernel-checked theorems + exhaustive small-graph differential correspondence + permutation metamorphic oracle",
+}
